@@ -1,5 +1,5 @@
 """Property -> rules table.  Rules are functions (ctx, repo)."""
-from .rules import ndim, iface, wrappers, rng, mech
+from .rules import ndim, iface, wrappers, rng, mech, errmodels, popmodels
 
 PROPS = {}
 
@@ -36,13 +36,74 @@ prop('C02',
                  'pooled/heterogeneous dimensions are classified through the '
                  'interface.')
 
+prop('C04',
+     [errmodels.r04_1, errmodels.r04_terms],
+     undecided=['behaviour for inputs outside the documented support other '
+                'than the guards (e.g. negative outputs of the '
+                'multiplicative model)',
+                'shape contracts of the public wrappers beyond the kernels'],
+     assumptions=COMMON_ASSUME + [
+         'sympy expand/cancel/diff/expand_log as a rewriting engine',
+         'the transcription of the docstring densities in chk/spec.py'],
+     technique='term algebra on the lifted closed-form kernels (AST -> '
+               'sympy terms, Sigma-linearity, symbolic differentiation, '
+               'Gaussian-family recognition) + structural guard rule',
+     explanation='For each of the 4 error models the three kernels are '
+                 'lifted from the AST: total = sum of pointwise, pointwise = '
+                 'log of the documented density (recognised as normalised), '
+                 'every returned sensitivity block = the symbolic derivative '
+                 'in unpacking order; the support guards are compared '
+                 'structurally.')
+
+TERM_ASSUME = COMMON_ASSUME + [
+    'sympy expand/cancel/diff/expand_log as a rewriting engine',
+    'the transcription of the docstring densities in chk/spec.py']
+
+prop('C03',
+     [errmodels.r04_terms, popmodels.r05_2, iface.r02_7],
+     undecided=['mechanistic sensitivities (sundials)',
+                'finiteness of scores at run time'],
+     assumptions=TERM_ASSUME,
+     technique='term algebra: symbolic derivative identities of every '
+               'closed-form leaf gradient; signature compatibility of the '
+               'gradient call chain',
+     explanation='Decides the leaf clauses of C03: every hand-derived '
+                 'gradient of an error model and of a continuous population '
+                 'model (centred and non-centred, with and without upstream '
+                 'sensitivities) is the symbolic derivative of the score the '
+                 'same class evaluates, and the score returned with the '
+                 'sensitivities is that score.')
+
 prop('C05',
-     [ndim.r05_1],
+     [ndim.r05_1, popmodels.r05_2],
      undecided=['numerical values at boundary points', '-inf vs nan'],
-     assumptions=COMMON_ASSUME,
-     technique='AST rule over rank-dispatch chains',
-     explanation='Decides the layout-normalisation clause of C05: every '
-                 'rank-dispatch branch normalises the variable it tests.')
+     assumptions=TERM_ASSUME,
+     technique='AST rule over rank-dispatch chains + term algebra on the '
+               'lifted density / gradient kernels',
+     explanation='Decides the layout-normalisation clause of C05 (every '
+                 'rank-dispatch branch normalises the variable it tests) and '
+                 'the closed-form clause: log-likelihood = sum of the '
+                 'documented log-density, sensitivities = its derivatives, '
+                 'non-centred models are standard normal in eta with the '
+                 'chain rule through the class\'s own transform.')
+
+prop('C06',
+     [errmodels.r06_1, popmodels.r06_2, popmodels.r06_3],
+     undecided=['distribution of numpy / scipy draws',
+                'quantiles and independence of actual samples'],
+     assumptions=TERM_ASSUME + [
+         'rng.normal(loc, scale) = loc + scale*eps, rng.lognormal(mean, '
+         'sigma) = exp(mean + sigma*eps), scipy truncnorm(a, b, loc, scale) '
+         'has standardised bounds'],
+     technique='term algebra: noise structure (mean, variance) of the lifted '
+               'sampler vs. the Gaussian-family normal form of the lifted '
+               'density; closed-form moments',
+     explanation='Decides parameterisation agreement between each sampler '
+                 'and the density its log-likelihood scores (not the '
+                 'distribution of numpy\'s draws): mean and variance of the '
+                 'affine noise structure of `sample` equal those recognised '
+                 'from the density; scipy truncation bounds are standardised '
+                 'correctly; reported moments equal the closed-form moments.')
 
 prop('C11',
      [mech.r11_1, mech.r11_2],
